@@ -208,6 +208,7 @@ func runC13(c *Ctx) {
 	runConfSubProvenance(c, "R8")
 	runC13OmitEmpty(c)
 	runC13NotifyClone(c)
+	runC13Hooks(c)
 }
 
 // ---------- R3 validation walk ----------
